@@ -24,7 +24,8 @@ Inductive case :=
 | CAddr (id : N) (u addr : bytes)                                (* ToAddress *)
 | CFrom (id : N) (s : bytes) (ok : bool) (out : bytes)           (* Uint168FromAddress: ok / (error or panic) *)
 | CFix (id : N) (f : Z) (str : bytes)                            (* Fixed64.String *)
-| CParse (id : N) (s : bytes) (ok : bool) (v : Z).               (* StringToFixed64 *)
+| CParse (id : N) (s : bytes) (ok : bool) (v : Z)                (* StringToFixed64 *)
+| CBlob (id : N) (xy d blob reloaded : bytes).                   (* SaveAccount blob, private key after LoadAccounts *)
 
 Definition check (c : case) : option N :=
   match c with
@@ -45,6 +46,8 @@ Definition check (c : case) : option N :=
     | APanic => Some id
     end
   | CFix id f str => if beq (fixed64_string f) str then None else Some id
+  | CBlob id xy d blob re =>
+    if beq (key_blob xy d) blob && beq (blob_priv blob) re then None else Some id
   | CParse id s ok v =>
     match string_to_fixed64 true s with
     | Some x => if ok && (x =? v) then None else Some id
